@@ -55,6 +55,9 @@ LAX_TABLE = [
     ("int", (("const", "Lax(1)"),)), ("str", (("const", "Lax('a')"),)), ("int", (("enum", "Lax([1, 2, 3])"),)),
     # a lax bound of another numeric type than the origin
     ("int", (("le", "Lax(10.5)"),)), ("int", (("ge", "Lax(0.5)"),)), ("float", (("le", "Lax(10)"),)), ("Decimal", (("ge", "Lax(0)"),)),
+    ("int", (("ge", "Lax(Decimal('0.5'))"),)), ("int", (("le", "Lax(Decimal('-0.5'))"),)),
+    # an Enum class as the lax choice: the replacement is a member *value*, like every other path returns
+    ("int", (("enum", "Lax(Num)"),)), (None, (("enum", "Lax(Plain)"),)), (None, (("enum", "Lax(Tricky)"),)),
     # untyped rules: the lax constant replaces every input, also one that is equal to it but of another type
     (None, (("const", "Lax(1)"),)), (None, (("const", "Lax(0)"),)), (None, (("const", "Lax(True)"),)),
     (None, (("const", "Lax('red')"),)), (None, (("enum", "Lax([1, 'a'])"),)),
